@@ -6,8 +6,6 @@
 // ======================================================================================
 //@ source lib/loader/elf/elf.rs
 
-pub type Parsed<'a> = goblin::elf::Elf<'a>;
-
 impl Elf {
     /// data invariant of loader::Elf: goblin parses the bytes (Elf::new only builds an Elf after a
     /// successful `goblin::elf::Elf::parse(&bytes)`; the parser is a function of the bytes)
